@@ -3,3 +3,5 @@
 package proxycore
 
 func vhook(string, ...interface{}) {}
+
+func verifClusterConfig(config ClusterConfig) ClusterConfig { return config }
